@@ -4,6 +4,7 @@ package bridgesync
 
 import (
 	"context"
+	"database/sql"
 
 	"github.com/agglayer/aggkit/log"
 	"github.com/agglayer/aggkit/sync"
@@ -42,6 +43,9 @@ func (v *VerifProcessor) GetLastProcessedBlock(ctx context.Context) (uint64, err
 func (v *VerifProcessor) IsHalted() bool                  { return v.P.isHalted() }
 func (v *VerifProcessor) ExitTree() *tree.AppendOnlyTree { return v.P.exitTree }
 func (v *VerifProcessor) Close() error                    { return v.P.db.Close() }
+
+// DB returns the processor's connection pool (the harness keeps a read in flight on it during a reorg).
+func (v *VerifProcessor) DB() *sql.DB { return v.P.db }
 
 // Facade returns a BridgeSync around the processor (no driver / downloader / clients): the exported
 // query entry points with their halted guards.
